@@ -26,6 +26,12 @@ class Ctx:
             self.facts = Facts(path)
         self.info = info
         self.prog = Program(self.facts)
+        # normal form: private closure-taking locking helpers written out at their callers (openho.py; a no-op on the pinned tree)
+        import openho
+        nf, self.opened_helpers = openho.normalise(self.prog, Facts)
+        if nf is not None:
+            self.facts = nf
+            self.prog = Program(nf)
         self._lm = None
         self.cache = {}
 
